@@ -17,7 +17,7 @@ use crate::refmodel::reqvalid::{self, ReqFacts};
 
 pub const RULE: &str = "flows = every state of the redirect-chain graph (original GET / POST with authorization, cookie, content-length, x-keep; statuses {302,307}; Locations {same host /q, other host http://b.test/q, same host https}; both policies; depth 0..3) x caller additions: all sequences of length 0..=3 (thorough 0..=4) over the pool {cookie: k=NEW1, cookie: k=NEW2, authorization: NEW, content-length: 0 (with send-body-despite-method), host: h.test, connection: close, x-a: 1, X-MiXeD: v, cookie and authorization EQUAL to the inherited ones, a non-UTF-8 cookie value} plus long sequences of n = 4..=60 additions cycling through the pool; restricted to requests the validity model accepts; head written under two buffer schedules, parsed back and compared in full with the reference head (added in order, derived headers, unsuppressed originals). distinct = distinct (flow state, addition sequence) pairs";
 
-const POOL: [(&str, &[u8]); 11] = [("cookie", b"k=NEW1"), ("cookie", b"k=NEW2"), ("authorization", b"NEW"), ("content-length", b"0"), ("host", b"h.test"), ("connection", b"close"), ("x-a", b"1"), ("X-MiXeD", b"v"), ("cookie", b"k=ORIG"), ("authorization", b"S3CRET"), ("cookie", b"caf\xe9")];
+const POOL: [(&str, &[u8]); 12] = [("transfer-encoding", b"chunked"), ("cookie", b"k=NEW1"), ("cookie", b"k=NEW2"), ("authorization", b"NEW"), ("content-length", b"0"), ("host", b"h.test"), ("connection", b"close"), ("x-a", b"1"), ("X-MiXeD", b"v"), ("cookie", b"k=ORIG"), ("authorization", b"S3CRET"), ("cookie", b"caf\xe9")];
 
 fn chain_cfgs() -> Vec<Arc<ChainCfg>> {
     let locs = vec![Loc::one("/q"), Loc::one("http://b.test/q"), Loc::one("https://a.test/s")];
@@ -84,7 +84,7 @@ fn sequences(max_len: usize) -> Vec<Vec<usize>> {
         while s.len() < n {
             let i = k % POOL.len();
             k += 1;
-            if (i == 3 || i == 4) && s.contains(&i) {
+            if (i == 0 || i == 4 || i == 5) && s.contains(&i) {
                 continue;
             }
             s.push(i);
@@ -97,14 +97,18 @@ fn sequences(max_len: usize) -> Vec<Vec<usize>> {
 /// Check one (flow state, addition sequence). Returns Some((key, what)) on failure; None if ok or skipped.
 fn check(st: &ChainSt, added: &[(String, Vec<u8>)]) -> (Option<(String, String)>, bool) {
     let Some(base) = &st.flow else { return (None, false) };
-    let despite = added.iter().any(|(k, _)| k.eq_ignore_ascii_case("content-length"));
+    let despite = added.iter().any(|(k, _)| k.eq_ignore_ascii_case("content-length") || k.eq_ignore_ascii_case("transfer-encoding"));
     // effective headers per the reference: added + originals minus inherited-suppressed
     let suppressed = |name: &str| -> bool { st.hop > 0 && (name == "cookie" || name == "content-length" || (name == "authorization" && !st.auth_may)) };
     let origs: Vec<(String, Vec<u8>)> = st.cfg.req.orig.iter().filter(|(k, _)| !suppressed(k)).cloned().collect();
     let eff: Vec<(String, &[u8])> = added.iter().map(|(k, v)| (k.to_ascii_lowercase(), &v[..])).chain(origs.iter().map(|(k, v)| (k.clone(), &v[..]))).collect();
     let hosts: Vec<&[u8]> = eff.iter().filter(|h| h.0 == "host").map(|h| h.1).collect();
     let cls: Vec<&[u8]> = eff.iter().filter(|h| h.0 == "content-length").map(|h| h.1).collect();
-    let valid = reqvalid::check(&ReqFacts { version: "1.1", method: &st.method, hosts, content_lengths: cls, te_chunked: false, despite_method: despite, call_with_body: None }).is_ok();
+    let te_n = eff.iter().filter(|h| h.0 == "transfer-encoding").count();
+    if te_n > 1 {
+        return (None, false);
+    }
+    let valid = reqvalid::check(&ReqFacts { version: "1.1", method: &st.method, hosts, content_lengths: cls, te_chunked: te_n == 1, despite_method: despite, call_with_body: None }).is_ok();
     if !valid {
         return (None, false); // C17 owns rejected requests
     }
